@@ -79,7 +79,10 @@ def case_permutation(rng: Any, ctx: Ctx, index: int) -> None:
     element by element, on pytrees whose leaves have different ranks and with axes of either sign."""
     gen.begin_case(rng)
     u = gen.universe(rng)
-    s = u[gen.pick(rng, ['tuple_mixrank', 'tuple_samefirst', 'm23', 't213', 't223', 'nested'])]
+    dt = gen.case_dtype(rng)
+    mixed = [(gen.S((2, 3), dt), gen.S((4, 2, 3), dt)), [gen.S((2, 3, 4), dt), gen.S((3, 2), dt)],
+             {'b': gen.S((3, 2), dt), 'a': gen.S((2, 2, 3, 2), dt)}]          # leaves of different ranks, all >= 2
+    s = gen.pick(rng, mixed) if rng.integers(2) else u[gen.pick(rng, ['m23', 't213', 't223'])]
     op = generate(lambda: gen.a_moveaxis(rng, s))
     if op is None:
         return
